@@ -607,3 +607,27 @@ func numConst(v constant.Value) constant.Value {
 	}
 	return nil
 }
+
+// copyCall: the statement copy(dst, src) where dst is a local slice variable.
+func (c *fctx) copyCall(call *ast.CallExpr) (types.Object, string, string, bool) {
+	id, ok := call.Fun.(*ast.Ident)
+	if !ok || len(call.Args) != 2 {
+		return nil, "", "", false
+	}
+	if b, isB := c.info.Uses[id].(*types.Builtin); !isB || b.Name() != "copy" {
+		return nil, "", "", false
+	}
+	did, isId := unparen(call.Args[0]).(*ast.Ident)
+	if !isId {
+		c.fail(call.Pos(), "copy into something other than a slice variable")
+	}
+	o := c.info.Uses[did]
+	t := c.typeOf(c.info.TypeOf(did), did.Pos())
+	if o == nil || t.k != kSlice || !c.known(o) {
+		c.fail(call.Pos(), "copy into something other than a local slice variable")
+	}
+	if st := c.typeOf(c.info.TypeOf(call.Args[1]), call.Pos()); st.k != kSlice {
+		c.fail(call.Pos(), "copy from a non-slice")
+	}
+	return o, c.expr(did), c.expr(call.Args[1]), true
+}
